@@ -1119,18 +1119,40 @@ def _colored(fn, d, a, out):
         out.unsure(fn, st, 'column index of the colored store not recognised')
         return
     cv, cat = resolve(rd, sn, cn)
-    good = isinstance(cv, ast.BinOp) and isinstance(cv.op, ast.Sub) and isinstance(cv.left, ast.Name) and \
-        cv.left.id == icol and isinstance(cv.right, ast.Attribute) and cv.right.attr in ('start', 'stop') and \
-        isinstance(cv.right.value, ast.Subscript) and \
-        rpath(rd, cat, cv.right.value.value) == 'self._in_slices' and \
-        isinstance(cv.right.value.slice, ast.Name) and cv.right.value.slice.id == wrt
-    if not good:
-        if isinstance(cv, (ast.BinOp, ast.Name)) and (astx.mentions(cv, icol) or astx.mentions(cv, 'start', 'stop')):
-            out.bad(fn, astx.stmt_of(cv) if hasattr(cv, '_parent') else st,
-                    f'local column `{astx.src(cv)}` is not `{icol} - self._in_slices[{wrt}].start`',
+
+    def same_var(a_id, a_at, b_id, b_at):
+        """Two local names denote the same value (identical, or aliases resolving to the same expression)."""
+        if a_id == b_id:
+            return True
+        ra = resolve(rd, a_at, ast.Name(id=a_id, ctx=ast.Load()))[0]
+        rb = resolve(rd, b_at, ast.Name(id=b_id, ctx=ast.Load()))[0]
+        return not isinstance(ra, ast.Name) and astx.same(ra, rb)
+    where = astx.stmt_of(cv) if hasattr(cv, '_parent') else st
+    want = f'`{icol} - self._in_slices[{wrt}].start`'
+    if isinstance(cv, ast.Name) and cv.id == icol:
+        out.bad(fn, st, f'the GLOBAL column `{icol}` is used as the column of the sub-jacobian instead of {want}',
+                key='column-index')
+        return
+    if not (isinstance(cv, ast.BinOp) and isinstance(cv.left, ast.Name) and cv.left.id == icol):
+        out.unsure(fn, st, 'local column expression not recognised')
+        return
+    if not isinstance(cv.op, ast.Sub):
+        out.bad(fn, where, f'local column `{astx.src(cv)}` is not {want}', key='column-index')
+        return
+    # the offset may itself be a temporary (`in_start = in_slices[in_name].start`)
+    rv, rat = resolve(rd, cat, cv.right)
+    if not (isinstance(rv, ast.Attribute) and isinstance(rv.value, ast.Subscript) and
+            isinstance(rv.value.slice, ast.Name)):
+        out.unsure(fn, st, 'offset of the local column not recognised')
+        return
+    base = rpath(rd, rat, rv.value.value)
+    if rv.attr not in ('start', 'stop') or base != 'self._in_slices' or \
+            not same_var(rv.value.slice.id, rat, wrt, Kat):
+        if base in ('self._in_slices', 'self._out_slices') or rv.attr in ('start', 'stop', 'step'):
+            out.bad(fn, where, f'local column `{astx.src(cv)}` (offset `{astx.src(rv)}`) is not {want}',
                     key='column-index')
         else:
-            out.unsure(fn, st, 'local column expression not recognised')
+            out.unsure(fn, st, 'offset of the local column not recognised')
         return
     # (`icol - stop` is the same column counted from the end: negative indices are accepted as equivalent)
     # part = scratch[out_slices[of]]
@@ -3070,4 +3092,35 @@ selftest(
            _ELEM_STORES_CONDEXPR.replace('= vdict[u]', '= vdict[inp]'), 'C14.slot'),
     Mutant('slot-condexpr-row', EC, _ELEM_STORES, _ELEM_STORES_CONDEXPR.replace('partials[key][:, i]', 'partials[key][i, :]'),
            'C14.slot'),
+)
+
+# ---- fourth robustness round: column offset through a temporary, renamed locals, inlined key, continue guard
+_COL_LOOP = '''            for icol, rows in zip(icols, nzrowlists):
+                scratch[rows] = imag_oar[rows]
+                in_name = idx2name[icol]
+''' + _COL_INNER
+_COL_LOOP_TEMP = '''            for icol, nzrows in zip(icols, nzrowlists):
+                in_name = idx2name[icol]
+                in_start = in_slices[in_name].start
+                scratch[nzrows] = imag_oar[nzrows]
+                loc_i = icol - in_start
+                for out_name in out_names:
+                    if (out_name, in_name) not in partials:
+                        continue
+                    col_view = scratch[out_slices[out_name]]
+                    partials[out_name, in_name][:, loc_i] = col_view
+                    col_view[:] = 0.
+'''
+selftest(
+    'C14',
+    Twin('twin-colored-offset-temporary', EC, _COL_LOOP, _COL_LOOP_TEMP),
+    Mutant('slot-offset-temporary-from-out-slices', EC, _COL_LOOP,
+           _COL_LOOP_TEMP.replace('in_start = in_slices[in_name].start', 'in_start = out_slices[in_name].start'), 'C14.slot'),
+    Mutant('slot-offset-temporary-added', EC, _COL_LOOP, _COL_LOOP_TEMP.replace('loc_i = icol - in_start', 'loc_i = icol + in_start'),
+           'C14.slot'),
+    Mutant('slot-offset-temporary-dropped', EC, _COL_LOOP, _COL_LOOP_TEMP.replace('loc_i = icol - in_start', 'loc_i = icol'),
+           'C14.slot'),
+    Mutant('slot-inlined-key-swapped', EC, _COL_LOOP,
+           _COL_LOOP_TEMP.replace('partials[out_name, in_name][:, loc_i]', 'partials[in_name, out_name][:, loc_i]')
+           .replace('(out_name, in_name) not in partials', '(in_name, out_name) not in partials'), 'C14.slot'),
 )
